@@ -43,25 +43,25 @@ T = {
     "MC_C09_q": dict(calls=3, flush=1, one_in=10, extra_inv="CorruptionReported MissingChunkReported"),
     "MC_C09_t": dict(calls=4, flush=1, one_in=100, cfgs="C_CfgsWide", extra_inv="CorruptionReported MissingChunkReported"),
     "MC_C11_q": dict(calls=3, flush=1, cfgs="C_CfgsWide", batch="TRUE", one_in=4),
-    "MC_C11_t": dict(calls=4, flush=2, cfgs="C_CfgsWide", batch="TRUE", one_in=100),
+    "MC_C11_t": dict(calls=4, flush=1, cfgs="C_CfgsWide", batch="TRUE", one_in=100),
 }
 T.update({
     # concurrent instances (module MC_Conc)
     "MC_C07_q": dict(calls=3, flush=1, conc="TRUE", cfgs="C_CfgsCache"),
     "MC_C07_t": dict(calls=3, flush=2, conc="TRUE", cfgs="C_CfgsCache"),
     "MC_C04_q": dict(calls=2, flush=2, faults=1, conc="TRUE", cfgs="C_CfgsRot"),
-    "MC_C04_t": dict(calls=3, flush=2, faults=2, conc="TRUE", cfgs="C_CfgsRot"),
+    "MC_C04_t": dict(calls=3, flush=2, faults=2, conc="TRUE", cfgs="C_CfgsRot", one_in=20),
     "MC_Crash_q": dict(calls=2, flush=1, crash=1, conc="TRUE", cfgs="C_CfgsCrash", one_in=20),
     "MC_RCrash_q": dict(calls=1, flush=1, crash=1, conc="TRUE", cfgs="C_CfgsCrash", one_in=4, rcrash="TRUE"),
-    "MC_RCrash_t": dict(calls=2, flush=1, crash=1, conc="TRUE", cfgs="C_CfgsCrash", one_in=40, rcrash="TRUE"),
-    "MC_Crash_t": dict(calls=3, flush=1, crash=1, conc="TRUE", cfgs="C_CfgsCrash", one_in=200),
+    "MC_RCrash_t": dict(calls=1, flush=2, crash=1, conc="TRUE", cfgs="C_CfgsCrash", one_in=10, rcrash="TRUE"),
+    "MC_Crash_t": dict(calls=2, flush=2, crash=1, conc="TRUE", cfgs="C_CfgsCrash", one_in=200),
     "MC_C07crash_q": dict(calls=2, flush=1, crash=1, conc="TRUE", cfgs="C_CfgsCrashCache", one_in=4),
-    "MC_C07crash_t": dict(calls=3, flush=1, crash=1, conc="TRUE", cfgs="C_CfgsCrashCache", one_in=40),
+    "MC_C07crash_t": dict(calls=2, flush=2, crash=1, conc="TRUE", cfgs="C_CfgsCrashCache", one_in=40),
     "MC_C14_q": dict(calls=3, flush=1, reopen=1, conc="TRUE", cfgs="C_CfgsRot"),
-    "MC_C14_t": dict(calls=3, flush=2, reopen=2, conc="TRUE", cfgs="C_CfgsRot"),
+    "MC_C14_t": dict(calls=3, flush=2, reopen=2, conc="TRUE", cfgs="C_CfgsRot", one_in=10),
     "MC_C08_q": dict(calls=3, flush=1, faults=0, conc="TRUE", cfgs="C_CfgsRot"),
     "MC_C08_f": dict(calls=3, flush=1, faults=1, conc="TRUE", cfgs="C_CfgsRot3"),
-    "MC_C08_t": dict(calls=3, flush=2, faults=1, conc="TRUE", cfgs="C_CfgsRot"),
+    "MC_C08_t": dict(calls=3, flush=2, faults=1, conc="TRUE", cfgs="C_CfgsRot", one_in=10),
 })
 for name, over in T.items():
     d = dict(D)
